@@ -335,7 +335,7 @@ def _events_on_path(A: Analysis, path, op_var: str) -> List[Tuple[str, Node]]:
     return ev
 
 
-def rule_ex6(A: Analysis, rep, F: ExecFacts):
+def rule_ex6(A: Analysis, rep, F: ExecFacts, stop_rules=True):
     fi = F.launch_fi
     g = A.cfg(fi, "sync")
     dq = _dequeue_node(A, g, fi)
@@ -404,17 +404,35 @@ def rule_ex6(A: Analysis, rep, F: ExecFacts):
                 key="EX6|" + tag)
     if not problems:
         rep.ok("EX6", "launch-loop typestate", fi.node, "%d paths from dequeue_next() classified: skipped / launched / failed / aborted" % len(paths))
-    # `return True` only under stop_on_first_error
+    if not stop_rules:
+        rep.expect_min("EX6", 1)
+        return
+    # stop-early: once a launch failure was observed under stop_on_first_error, nothing else may be dequeued
     gp = A.cfg(fi, "plain")
+    failed_nodes = [n for n in gp.nodes if n.kind == "stmt" and "FAILED" in _state_events(A, n.ast)]
+    hdr_p = [n for n in gp.nodes if n.kind == "test" and isinstance(n.info, ast.While) and id(dq.ast) in {id(x) for x in ast.walk(n.info)}][0]
+    stop_tests = [n for n in gp.nodes if n.kind == "test" and A.dnf(n.ast, True, fi) == [frozenset({("t(stop_on_first_error)", True)})]]
+    for fnode in failed_nodes:
+        # paths on which stop_on_first_error is true: remove the F edges of the stop tests
+        r = gp.reach([fnode], removed_edges=[(t, "F") for t in stop_tests])
+        again = hdr_p in r and bool(stop_tests) or (not stop_tests)
+        # without a stop test the header is reachable unconditionally
+        if stop_tests:
+            r2 = gp.reach([fnode], removed_edges=[(t, "F") for t in stop_tests])
+            again = hdr_p in r2
+        rep.check(not again, "EX6", "stop-early: nothing is started after a launch failure", fnode.ast,
+                  "with stop_on_first_error every path from the failure leaves the launch loop",
+                  "after a launch failure the loop can dequeue and start another op although stop_on_first_error is set (no task may start after the first failure)")
+    # a truthy return needs stop_on_first_error
     for n in gp.nodes:
-        if n.kind == "stmt" and isinstance(n.ast, ast.Return) and n.ast.value is not None and norm(n.ast.value) == "True":
-            hs = [h for h in g.nodes_of(n.ast)]
-            guards_ok = _guarded_by(A, n.ast, "stop_on_first_error")
-            rep.check(guards_ok, "EX6", "stop only on request", n.ast, "`return True` only under stop_on_first_error",
-                      "the launch loop stops although --stop-early was not requested")
-    final = [n for n in gp.nodes if n.kind == "stmt" and isinstance(n.ast, ast.Return) and n.ast in fi.node.body]
-    rep.check(len(final) == 1 and norm(final[0].ast.value) == "False", "EX6", "default return False", fi.node,
-              "", "the launch loop's fall-through return is not False", deep=False)
+        if n.kind == "stmt" and isinstance(n.ast, ast.Return) and n.ast.value is not None and norm(n.ast.value) != "False":
+            if norm(n.ast.value) == "True":
+                okr = _guarded_by(A, n.ast, "stop_on_first_error")
+            else:
+                d = A.dnf(n.ast.value, True, fi, inline=False)
+                okr = bool(d) and all(("t(stop_on_first_error)", True) in c for c in d)
+            rep.check(okr, "EX6", "stop only on request", n.ast, "a truthy result requires stop_on_first_error",
+                      "the launch loop can ask the executor to stop although --stop-early was not requested")
     rep.expect_min("EX6", 2)
 
 
